@@ -49,6 +49,7 @@ RULE += ' Round 7: a parameter file in another folder naming the data folder (di
 RULE += ' Round 8: array files that are symbolic links into another folder (that folder is snapshotted too); a sorted spike_times_reordered.npy beside unsorted times (refusal required); per-spike attribute files of shape (n, 2).'
 RULE += ' Round 9: raw parts with equal base names (run<k>/continuous.dat); stored seconds with an inversion of a fifth of a sample; the caller writes to model.spike_clusters and spike_templates is compared again.'
 RULE += ' Round 10: regular (unjittered) geometries; the all-NaN template may be one without spikes, and templates are compared (all-NaN -> zeros) in that case too.'
+RULE += ' Round 11: params.py as a link into another folder given by a relative path; a raw file cut in the middle of a sample; an ALF samples file with an extra name part.'
 EXHAUSTIVE = {'quick': False, 'thorough': False}
 FLOORS = {'quick': {'evaluations': 1500, 'distinct_nontrivial': 800, 'monitors': {'M1.checked': 2000}},
           'thorough': {'evaluations': 20000, 'distinct_nontrivial': 5000, 'monitors': {'M1.checked': 5000}}}
